@@ -141,6 +141,8 @@ func main() {
 			}
 		}
 		extra["second_build"] = map[string]any{"goos": "darwin", "obligations_only_in_that_build": added, "obligations_total": len(res2.Obs)}
+		extra["self_validation"] = selfTest(spec, ids, *repo, *verif, known)
+		theProg = p
 	}
 	classify(res, known)
 	code := finish(spec, *tier, seed, p, ids, res, *evdir, start, extra)
